@@ -94,6 +94,13 @@ class Scenario:
     def server(self):
         if not self.s.conn_open or not self.peer_open:
             return False
+        raw, m, kind = self.message()
+        self.s.cmd("S2C " + raw.hex())
+        self.events.append(dict(e="Srv", m=m, kind=kind))
+        return True
+
+    def message(self, about=None):
+        """one PDU the server may write: (bytes, its abstraction for AsyncService.tla, kind); about = the request it is preferably about"""
         rng = self.rng
         TAG = 0x0321 if self.svc == "extend" else 0x0221
         kind = rng.choices(["valid", "valid", "valid", "wronghash", "status", "errpdu", "badmac", "garbage", "unknown", "stale"],
@@ -104,7 +111,7 @@ class Scenario:
         if kind == "stale" and not known:
             kind = "unknown"
         if kind in ("valid", "wronghash", "status", "stale"):
-            r = rng.choice(known)
+            r = about if (about in self.req and rng.random() < 0.7) else rng.choice(known)
             real = self.req[r]["id"]
             if kind == "stale":
                 real = real ^ (rng.choice([1, 2, 3]) << 32)      # same cache slot, another id generation
@@ -137,9 +144,7 @@ class Scenario:
         else:
             raw = bytes.fromhex("83210004deadbeef" if self.svc == "extend" else "82210004deadbeef")
             m = dict(k="garbage")
-        self.s.cmd("S2C " + raw.hex())
-        self.events.append(dict(e="Srv", m=m, kind=kind))
-        return True
+        return raw, m, kind
 
     def step(self):
         rng = self.rng
@@ -184,10 +189,87 @@ class Scenario:
                 self.s.cmd("TICK %d" % n); self.events.append(dict(e="Tick", n=n))
 
 
+class HttpScenario(Scenario):
+    """the same service over the asynchronous HTTP client (net_http_curl_async.c) on a scripted curl multi interface: every request is an HTTP
+    exchange of its own; the environment completes exchanges (body of 0..2 PDUs, possibly followed by junk; transfer error; HTTP error status)"""
+    def start(self):
+        o = self.o
+        out = self.s.cmd("NEW %d %d %d %d %d %s http" % (o["N"], o["SndTo"], o["RcvTo"], o["MaxReq"], o["ConTo"], "x" if self.svc == "extend" else "-"))
+        if not out or "rc=0" not in out[-1]:
+            raise vlib.CheckError("cannot create the async HTTP service: %s" % out)
+        self.events.append(dict(e="New"))
+        self.live = {}            # exchange number -> r
+
+    def run(self):
+        mark = len(self.s.log)
+        Scenario.run(self)
+        import wire
+        for ln in self.s.log[mark:]:
+            if ln.startswith("E madd"):
+                f = dict(x.split("=", 1) for x in ln.split()[2:])
+                rid = int.from_bytes(wire.request_fields(bytes.fromhex(f["post"]))["payload"].get(1, b""), "big")
+                owner = [r for r in self.req if self.req[r]["id"] == rid]
+                if not owner:
+                    raise vlib.CheckError("an HTTP exchange carries a request id nobody was given: %s" % ln[:200])
+                self.live[int(f["x"])] = owner[0]
+
+    def complete(self, x, how=None):
+        rng = self.rng; r = self.live.pop(x)
+        how = how or rng.choices(["body", "body", "body", "body2", "empty", "junk", "curlerr", "httperr"], weights=[6, 6, 6, 2, 1, 1, 1.5, 1.5])[0]
+        if how == "curlerr":
+            self.s.cmd("MHTTPERR %d %d" % (x, rng.choice([7, 28, 52, 56])))
+            self.events.append(dict(e="HDone", x=r, res="curlerr", msgs=[], junk=False)); return
+        if how == "httperr":
+            self.s.cmd("MHTTP %d %d %s" % (x, rng.choice([400, 404, 500, 503, 599]), rng.choice(["-", b"<html>error</html>".hex()])))
+            self.events.append(dict(e="HDone", x=r, res="httperr", msgs=[], junk=False)); return
+        parts = [] if how in ("empty", "junk") and rng.random() < 0.5 else [self.message(about=r) for _ in range(2 if how == "body2" else 1)]
+        if how == "empty": parts = []
+        raw = b"".join(p[0] for p in parts)
+        junk = how == "junk"
+        if junk:
+            raw += rng.choice([b"\x82", b"\x82\x21\x00", b"\x82\x21\x00\x09\x01\x02", b"\x01"])
+        self.s.cmd("MHTTP %d %d %s %d" % (x, rng.choice([200, 200, 201, 302]), raw.hex() or "-", rng.choice([0, 0, 1, 7, 100])))
+        self.events.append(dict(e="HDone", x=r, res="body", msgs=[p[1] for p in parts], junk=junk))
+
+    def server(self):
+        if not self.live:
+            return False
+        self.complete(self.rng.choice(sorted(self.live)))
+        return True
+
+    def step(self):
+        a = self.rng.choices(["add", "run", "srv", "tick"], weights=[5, 8, 6, 2])[0]
+        if a == "add":
+            if self.next_r <= R:
+                self.add()
+        elif a == "run":
+            self.run()
+        elif a == "srv":
+            self.server()
+        else:
+            n = self.rng.choice([1, 1, 2, 3])
+            self.s.cmd("TICK %d" % n); self.events.append(dict(e="Tick", n=n))
+
+    def drain(self):
+        for _ in range(4 * R + 8):
+            self.run()
+            if self.events[-1]["waiting"] == 0 and self.events[-1]["h"] == 0:
+                break
+            if self.events[-1]["h"] == 0:
+                if self.live and self.rng.random() < 0.5:
+                    self.server()
+                else:
+                    n = max(self.o["SndTo"], self.o["RcvTo"], 1) + 1
+                    self.s.cmd("TICK %d" % n); self.events.append(dict(e="Tick", n=n))
+        for x in sorted(self.live):          # exchanges that outlived their requests: let them end, so that the transport can release them
+            self.complete(x, "curlerr")
+        self.run()
+
+
 def tlc_cfg(path, spec, o, invariants=(), extra=""):
     with open(path, "w") as f:
-        f.write("SPECIFICATION %s\nCONSTANTS\n  Reqs = {%s}\n  N = %d\n  SndTo = %d\n  RcvTo = %d\n  ConTo = %d\n  MaxReq = %d\n%s" %
-                (spec, ", ".join(str(i) for i in range(1, o.get("R", R) + 1)), o["N"], o["SndTo"], o["RcvTo"], o["ConTo"], o["MaxReq"], extra))
+        f.write("SPECIFICATION %s\nCONSTANTS\n  Reqs = {%s}\n  N = %d\n  SndTo = %d\n  RcvTo = %d\n  ConTo = %d\n  MaxReq = %d\n  Http = %s\n%s" %
+                (spec, ", ".join(str(i) for i in range(1, o.get("R", R) + 1)), o["N"], o["SndTo"], o["RcvTo"], o["ConTo"], o["MaxReq"], "TRUE" if o.get("Http") else "FALSE", extra))
         if invariants:
             f.write("INVARIANTS\n" + "".join("  %s\n" % i for i in invariants))
 
@@ -241,7 +323,7 @@ def random_group(chk, exe, rng, o, nscen, steps, label):
     done = 0
     try:
         for k in range(nscen):
-            sc = Scenario(sess, rng, o, k, svc=("extend" if k % 3 == 2 else "sign"))
+            sc = (HttpScenario if o.get("Http") else Scenario)(sess, rng, o, k, svc=("extend" if k % 3 == 2 else "sign"))
             starts.append(len(events) + 1)
             mark = len(sess.log)
             try:
@@ -294,19 +376,48 @@ def known_finding_premature(chk, exe):
         s.close()
 
 
+def known_finding_http_fanout(chk, exe):
+    """F-C13-4: over HTTP every request has its own connection, yet an unauthenticated PDU in the body of ONE exchange fails every request that
+       is waiting for a response (strict invariant CauseOnOwnExchange of AsyncService.tla); reproduced on the real code."""
+    s = netsim.Session(exe)
+    try:
+        s.cmd("NEW 4 10 10 10 10 - http")
+        docs = {r: ksi.imprint(1, b"fanout-%d" % r) for r in (1, 2)}
+        ids = {r: int(netsim.kv(s.cmd("ADD %d %s 0" % (r, docs[r].hex()))[-1])["id"]) for r in (1, 2)}
+        s.cmd("RUN")
+        rng = random.Random(6)
+        bad = bytearray(ksi.pdu_v2(0x0221, b"anon", b"anon", [ksi.aggr_response_payload_v2(ids[1], sig=ksi.build_sig(rng, docs[1], anchor="auth"))])); bad[-3] ^= 4
+        s.cmd("MHTTP 1 200 %s" % bytes(bad).hex())            # exchange 1 carries a PDU whose MAC does not verify; exchange 2 is still in flight
+        seen = {}
+        for _ in range(3):
+            f = netsim.kv([l for l in s.cmd("RUN") if l.startswith("R run")][-1])
+            if f.get("h", "-") != "-":
+                seen[int(f["h"])] = (f.get("state"), f.get("err"))
+        good = ksi.pdu_v2(0x0221, b"anon", b"anon", [ksi.aggr_response_payload_v2(ids[2], sig=ksi.build_sig(rng, docs[2], anchor="auth"))])
+        s.cmd("MHTTP 2 200 %s" % good.hex()); s.cmd("RUN")
+        if seen.get(2, ("", ""))[0] == "5" and seen[2][1] == "0x20e":
+            chk.violation("http-error-fan-out-across-exchanges", "HTTP async client: request 2 (own exchange still in flight, later answered with a valid reply) was handed back with "
+                          "KSI_HMAC_MISMATCH because the body of request 1's exchange carried an unauthenticated PDU", dict(log=s.log))
+    finally:
+        s.close()
+
+
 def run(chk, tier, seed):
     exe = netsim.build()
     rng = random.Random(seed)
     # 1. exhaustive model checking (small caches)
     model_check(chk, "n1r2", dict(N=1, SndTo=1, RcvTo=1, ConTo=1, MaxReq=1, R=2), (2, 2, 2), 900)
+    model_check(chk, "http_n1r2", dict(N=1, SndTo=1, RcvTo=1, ConTo=1, MaxReq=1, R=2, Http=True), (2, 2, 2), 900)
     if tier == "thorough":
         model_check(chk, "n2r2", dict(N=2, SndTo=1, RcvTo=1, ConTo=0, MaxReq=2, R=2), (2, 2, 3), 1800)
         model_check(chk, "n2r3", dict(N=2, SndTo=0, RcvTo=1, ConTo=1, MaxReq=1, R=3), (1, 2, 2), 2400)
     # 2+3. real code on scripted sockets, traces validated by TLC
     groups = [dict(N=1, SndTo=2, RcvTo=2, ConTo=1, MaxReq=1), dict(N=2, SndTo=5, RcvTo=3, ConTo=2, MaxReq=2),
-              dict(N=3, SndTo=0, RcvTo=4, ConTo=0, MaxReq=100), dict(N=4, SndTo=3, RcvTo=0, ConTo=3, MaxReq=3)]
+              dict(N=3, SndTo=0, RcvTo=4, ConTo=0, MaxReq=100), dict(N=4, SndTo=3, RcvTo=0, ConTo=3, MaxReq=3),
+              # the asynchronous HTTP client (one exchange per request, scripted curl multi)
+              dict(N=2, SndTo=5, RcvTo=3, ConTo=2, MaxReq=2, Http=True), dict(N=4, SndTo=3, RcvTo=2, ConTo=1, MaxReq=1, Http=True)]
     if tier == "thorough":
-        groups += [dict(N=8, SndTo=4, RcvTo=4, ConTo=4, MaxReq=4), dict(N=64, SndTo=10, RcvTo=10, ConTo=10, MaxReq=1000),
+        groups += [dict(N=8, SndTo=4, RcvTo=4, ConTo=4, MaxReq=4), dict(N=8, SndTo=0, RcvTo=4, ConTo=4, MaxReq=100, Http=True), dict(N=1, SndTo=2, RcvTo=0, ConTo=1, MaxReq=1, Http=True), dict(N=64, SndTo=10, RcvTo=10, ConTo=10, MaxReq=1000),
                    dict(N=1, SndTo=1, RcvTo=1, ConTo=1, MaxReq=1), dict(N=2, SndTo=1, RcvTo=1, ConTo=1, MaxReq=1)]
     nscen, steps = (25, 40) if tier == "quick" else (120, 60)
     total_ev = 0
@@ -316,11 +427,12 @@ def run(chk, tier, seed):
         if gi == 1 and len(starts) > 1:
             chk.sample(dict(kind="recorded schedule (first scenario of group %d)" % gi, options=o, events=evs[:starts[1] - 1][:60]))
     known_finding_premature(chk, exe)
+    known_finding_http_fanout(chk, exe)
     chk.add(evaluations=total_ev, distinct_nontrivial=int(chk.cov.get("traces_validated_against_impl", 0)),
             rule="seeded random schedules of add / run / server message (valid, wrong hash, duplicate, stale generation, unknown id, error status, "
                  "error PDU, bad MAC, garbage) / peer close+reset / poll+connect outcomes / clock ticks executed by the real async service over "
                  "the real TCP client on scripted sockets; every schedule is one distinct trace validated by TLC")
-    chk.assumptions += ["the HTTP (curl multi) async client is not covered; pushed configurations are not yet modelled",
+    chk.assumptions += ["the HTTP (curl multi) async client runs on a scripted curl multi interface: exchanges complete when the script says so (body of 0..2 PDUs, junk, transfer error, HTTP status); failures of curl_multi_add_handle / curl_multi_perform themselves are not scripted; pushed configurations are not yet modelled",
                         "byte-level chunking of the stream is C14's business: here whole PDUs are delivered"]
 
 
